@@ -234,3 +234,31 @@ __CPROVER_assigns()
 __CPROVER_ensures(__CPROVER_return_value == (F_STATE(this_->base_co_awaiter._owner) != ST_NOT_VALUE ? 1 : 0))       /* has_value() == false for a dropped promise */
 ;
 #endif
+
+/* ---- promise<int>::operator=(promise&&): "an overwritten promise resolves its future to no-value at once (no hang); the moved-from promise
+ * is empty".  Forwarder unit (sequential atomics): the OLD future is dropped through set_value(drop) on this promise exactly once and
+ * BEFORE the owner cell is re-armed; the source is emptied through claim() exactly once; this promise then owns exactly what the source
+ * owned.  (set_value(drop) and claim() are the units set_drop / claim.) */
+#ifdef CV_HAS_pr_move_assign
+int gh_ma_drop_calls, gh_ma_claim_calls, gh_ma_order, gh_ma_drop_at, gh_ma_claim_at; PROM *gh_ma_drop_this, *gh_ma_claim_this; void *gh_ma_claimed; void *gh_ma_cell_at_drop;
+#ifdef CV_HAS_ma_set_drop_stub
+void ma_set_drop_stub(SPB *agg, PROM *t, cv_i32 tag) { gh_ma_drop_calls++; gh_ma_drop_this = t; gh_ma_drop_at = ++gh_ma_order; gh_ma_cell_at_drop = *(void **)P_CELL(t); *(void **)P_CELL(t) = 0; agg->value = 1; agg->base_suspend_point._count_flag = 0; }
+#endif
+#ifdef CV_HAS_ma_claim_stub
+FUT *ma_claim_stub(PROM *t) { gh_ma_claim_calls++; gh_ma_claim_this = t; gh_ma_claim_at = ++gh_ma_order; *(void **)P_CELL(t) = 0; return (FUT *)gh_ma_claimed; }
+#endif
+#ifdef CV_HAS_ma_sp_dtor_stub
+void ma_sp_dtor_stub(void *p) { }
+#endif
+PROM *pr_move_assign(PROM *this_, PROM *other)
+__CPROVER_requires(cv_exc_pending == 0 && gh_ma_drop_calls == 0 && gh_ma_claim_calls == 0 && gh_ma_order == 0 && __CPROVER_is_fresh(this_, sizeof(*this_)) && __CPROVER_is_fresh(other, sizeof(*other)))
+__CPROVER_requires(*(void **)P_CELL(other) == gh_ma_claimed)
+__CPROVER_assigns(__CPROVER_object_whole(this_), __CPROVER_object_whole(other), gh_ma_drop_calls, gh_ma_claim_calls, gh_ma_order, gh_ma_drop_at, gh_ma_claim_at, gh_ma_drop_this, gh_ma_claim_this, gh_ma_cell_at_drop)
+__CPROVER_ensures(cv_exc_pending == 0 && __CPROVER_return_value == this_)
+__CPROVER_ensures(gh_ma_drop_calls == 1 && gh_ma_drop_this == this_ && gh_ma_cell_at_drop == __CPROVER_old(*(void **)P_CELL(this_)))   /* the overwritten future is dropped, once, while this promise still owns it */
+__CPROVER_ensures(gh_ma_claim_calls == 1 && gh_ma_claim_this == other && gh_ma_drop_at < gh_ma_claim_at)                              /* the source is emptied by the single-winner claim, afterwards */
+__CPROVER_ensures(*(void **)P_CELL(this_) == gh_ma_claimed && *(void **)P_CELL(other) == 0)                                          /* this promise owns exactly what the source owned; the source is empty */
+__CPROVER_ensures(gh_allocs == __CPROVER_old(gh_allocs))
+;
+void h_move_assign(void) { PROM *a, *b; pr_move_assign(a, b); __CPROVER_assert(0, "SENTINEL reachable"); }
+#endif
